@@ -20,7 +20,7 @@ def anomaly(line):
 
 
 def scenario_of(seg):
-    return {"steps": [l["ms"] if l.get("a") == "Deliver" else [{"item": l.get("item"), "t": 0, "v": 0}] for l in seg[1:]]}
+    return {"steps": [l["ms"] if l.get("a") == "Deliver" else [{"item": l.get("item"), "t": -1, "v": 0}] for l in seg[1:]]}
 
 
 def validate(ctx, trace_path, via, label):
@@ -66,10 +66,18 @@ def check(ctx):
         out = ctx.path("trace_r_%s.ndjson" % via)
         ctx.harness("c09", "random", "--seed", ctx.seed, "--steps", 5000 if ctx.quick else 120000, "--out", out, "--via", via)
         validate(ctx, out, via, "random_" + via)
+    # the real composition: balances seeded through SystemBuilder (stamped with the engine clock's start)
+    # and every balance the mock exchange delivers afterwards, under real scheduling
+    from props import composition
+    composition.run(ctx, set(), runs=4 if ctx.quick else 30, fresh=True)
     return ctx.finish()
 
 
 def replay(ctx, rp):
+    if rp.get("kind") == "system":
+        from props import composition
+        composition.run(ctx, set(), runs=4, fresh=True)
+        return ctx.finish(write_evidence=False)
     ctx.build("c09")
     scn = ctx.path("replay_scn.ndjson")
     with open(scn, "w") as f:
